@@ -38,6 +38,7 @@ def parseMutOp (dflt : Int) (j : Json) : Except String (Option (MutOp Int)) := d
   match k with
   | "ref" => pure (some (.ref (← asInts (← field j "p"))))
   | "posref" => pure (some (.posref at_ (← fInt j "c")))
+  | "refsp" => pure (some (.posref at_ (← fInt j "c")))   -- a legal shortcut does not change the effect
   | "append" => pure (some (.append at_ (← fInt j "c") (treeArgOfJson (← field j "v"))))
   | "extend" => pure (some (.extend at_ (treeArgOfJson (← field j "f"))))
   | "setitem" =>
